@@ -14,6 +14,8 @@ condition under which the named root cause in jedi/api/refactoring is reached.  
         comprehension                                  (fixed by proposed_fixes/c06-1-inline-parenthesize-slots.diff)
   inline-attribute-reference-slot    the reference is `obj.name` (last trailer): `inline` inspects the
         trailer, not the slot `obj.name` sits in        (fixed by proposed_fixes/c06-2-inline-attribute-reference-slot.diff)
+  inline-rhs-name-rebound-before-reference   `x = a * 3; a -= 1; y = x`: a name read by the right-hand side is bound
+        again between the definition and a reference; `inline` moves the evaluation behind the rebinding
   inline-definition-first-on-semicolon-line   `x = 1; y = x`: the statement and the `;` are removed, the
         blank after `;` stays and the indentation is dropped (pinned by jedi's own test `semicolon`)
   extract-after-semicolon-uses-earlier-binding   the selection is in a later small statement of a
@@ -161,6 +163,31 @@ def inline_definition_first_on_semicolon_line(mod, req):
         return False
     nxt = st.get_next_leaf()
     return nxt is not None and nxt.type == 'operator' and nxt.value == ';'
+
+
+def inline_rhs_name_rebound_before_reference(mod, req):
+    """a name that the right-hand side of the inlined definition reads is bound again (assignment, augmented
+    assignment, for target, ...) between the definition and one of the references: the inlined expression is
+    evaluated after the rebinding"""
+    f = _inline_facts(mod, (req['line'], req['column']))
+    if f is None:
+        return False
+    st, rhs, refs = f
+    if not refs:
+        return False
+    last_ref = max(r.start_pos for r in refs)
+    read = set()
+    for l in _leaves(rhs) if hasattr(rhs, 'children') else [rhs]:
+        if l.start_pos >= rhs.end_pos:
+            break
+        if l.type == 'name' and not l.is_definition() and \
+                not (l.parent.type == 'trailer' and l.parent.children[0] == '.'):
+            read.add(l.value)
+    for l in _leaves(mod):
+        if l.type == 'name' and l.value in read and l.is_definition() \
+                and st.end_pos <= l.start_pos < last_ref:
+            return True
+    return False
 
 
 # ------------------------------------------------------------------ extract predicates
@@ -449,6 +476,8 @@ RULES = [
      {'oracle-compile': ('SyntaxError',), 'oracle-equiv': ANY, 'oracle-parens': ANY}),
     ('inline-attribute-reference-slot', ('inline',), lambda m, r, ls: inline_attribute_reference_slot(m, r),
      {'oracle-compile': ('SyntaxError',), 'oracle-equiv': ANY}),
+    ('inline-rhs-name-rebound-before-reference', ('inline',),
+     lambda m, r, ls: inline_rhs_name_rebound_before_reference(m, r), {'oracle-equiv': ANY}),
     ('extract-function-defining-name', ('extract_function',),
      lambda m, r, ls: extract_function_defining_name(m, r), {'oracle-compile': ('SyntaxError',)}),
     ('extract-multiline-selection-loses-brackets', ('extract_variable', 'extract_function'),
